@@ -60,6 +60,32 @@ class AStr:
     def tokens(self):
         return [p for k, p, n in self.segs if k == "tok"]
 
+    # content equality of abstract strings: decided structurally except for two different abstract
+    # tokens, whose equality is a symbolic input (equal tokens have equal lengths)
+    __hash__ = None
+
+    def __eq__(self, o):
+        if isinstance(o, str):
+            o = AStr.of(o)
+        if not isinstance(o, AStr):
+            return NotImplemented
+        if len(self.segs) == 1 and len(o.segs) == 1 and self.segs[0][0] == "tok" and o.segs[0][0] == "tok":
+            i, j = self.segs[0][1], o.segs[0][1]
+            if i == j:
+                return True
+            a, b = min(i, j), max(i, j)
+            e = z3.Bool("tokeq_%d_%d" % (a, b))
+            ex = symx.cur()
+            ex.assume(z3.Implies(e, self.segs[0][2] == o.segs[0][2]))
+            return ex.branch(e)
+        if [(k, p) for k, p, n in self.segs] == [(k, p) for k, p, n in o.segs]:
+            return True
+        raise symx.Unmodelled("equality of compound abstract strings")
+
+    def __ne__(self, o):
+        r = self.__eq__(o)
+        return r if r is NotImplemented else not r
+
     def __repr__(self):
         return "AStr(%s)" % " ".join("%s:%s" % (k, p if k != "sp" else z3.simplify(n)) for k, p, n in self.segs)
 
@@ -178,6 +204,8 @@ def work_sym(item):
                 conc = None
                 if m is not None:
                     conc = {"lens": [m.eval(z3.Int("toklen%d" % i), model_completion=True).as_long() for i in range(ntok)],
+                            "equal": [[i, j] for i in range(ntok) for j in range(i + 1, ntok)
+                                      if z3.is_true(m.eval(z3.Bool("tokeq_%d_%d" % (i, j)), model_completion=False))],
                             "level": m.eval(z3.Int("level"), model_completion=True).as_long(),
                             "width": m.eval(z3.Int("width"), model_completion=True).as_long()}
                 cands.append({"part": "lengths", "target": target, "ntok": ntok, "problem": r["problem"], "values": conc})
@@ -393,8 +421,10 @@ def replay(d):
     v = d.get("values")
     if not v:
         return {"reproduced": False, "detail": "no model"}
-    toks = ["t%d" % i + "x" * max(0, n - 2) for i, n in enumerate(v["lens"])]
-    toks = [t[:n] if len(t) > n else t for t, n in zip(toks, v["lens"])]
+    # pairwise distinct tokens of the given lengths, except where the model says two tokens are equal
+    toks = [("abcdefgh"[i % 8]) * n for i, n in enumerate(v["lens"])]
+    for i, j in v.get("equal") or []:
+        toks[j] = toks[i]
     import dagrt.codegen.utils as U
     import dagrt.codegen.python as P
     import dagrt.codegen.fortran as F
